@@ -296,6 +296,8 @@ func (c *RetryClient) SetClient(ctx context.Context, cli *BaseClient) {
 	c.chTask = make(chan struct{}, 1)
 	go func() {
 		connected := false
+		// chConnSwitch of the client which this goroutine waits for or is connected to.
+		var chConnSwitch chan struct{}
 		ctx := context.Background()
 
 	L_TASK:
@@ -305,7 +307,7 @@ func (c *RetryClient) SetClient(ctx context.Context, cli *BaseClient) {
 				for {
 					c.mu.RLock()
 					chConnectErr := c.chConnectErr
-					chConnSwitch := c.chConnSwitch
+					chConnSwitch = c.chConnSwitch
 					c.mu.RUnlock()
 					select {
 					case _, ok := <-chConnectErr:
@@ -319,7 +321,6 @@ func (c *RetryClient) SetClient(ctx context.Context, cli *BaseClient) {
 			}
 
 			c.mu.Lock()
-			chConnSwitch := c.chConnSwitch
 			select {
 			case <-chConnSwitch:
 				c.mu.Unlock()
